@@ -146,6 +146,16 @@ class Opaque:
         return "Opaque(%s)" % self.tag
 
 
+class SymNS:
+    """A small namespace object with (symbolic) attributes."""
+
+    def __init__(self, attrs):
+        self.attrs = attrs
+
+    def pyvc_attr(self, E, name, st):
+        return [(st, self.attrs[name])]
+
+
 class _NotImpl:
     def __repr__(self):
         return "NotImplemented"
